@@ -108,6 +108,15 @@ func c19Words(o *hx.Out, q, add, qry string) {
 	o.Count(fmt.Sprintf("words.n=%d", min(len(words), 6)))
 	if strings.ContainsAny(add, " \t\\\"") {
 		o.Count("words.add-quoted")
+	} else if c19HasSpaceByte(add) {
+		// the front end emits this value bare although one of its UTF-8 bytes is 0x85 / 0xA0
+		o.Count("words.add-bare-byte85a0")
+	}
+	if c19HasSpaceByte(q) {
+		o.Count("words.q-byte85a0")
+		if !strings.ContainsAny(q, "\\\"") {
+			o.Count("words.q-byte85a0-plain")
+		}
 	}
 	o.Add(c, c19WordsIn{"words", q, add, qry}, "w\x00"+q+"\x00"+add+"\x00"+qry, len(words) > 0 || add != "")
 }
@@ -120,6 +129,22 @@ func c19RandStr(r *hx.Rng, alpha []string, maxLen int) string {
 	}
 	return sb.String()
 }
+
+// c19HasSpaceByte: some byte of s is 0x85 or 0xA0 (U+0085 / U+00A0 are white
+// space as runes; as bytes of a longer UTF-8 sequence they are not).
+func c19HasSpaceByte(s string) bool {
+	return strings.IndexByte(s, 0x85) >= 0 || strings.IndexByte(s, 0xa0) >= 0
+}
+
+// non-ASCII symbols whose UTF-8 encodings contain 0x85 / 0xA0 (à = C3 A0,
+// Å = C3 85, 全 = E5 85 A8, U+00A0 = C2 A0, U+2003 = E2 80 83, U+0085 = C2 85)
+var c19UniSyms = []string{"à", "Å", "全", "\u00a0", "\u2003", "\u0085"}
+
+// words as users and the front end write them, bare
+var c19UniWords = []string{"note:voilà", "Å", "全", "k:a\u00a0b", "a\u2003b", "x\u0085y", "note:Å", "k>全", "k<à", "voilà", "pkg:全/à", "k:v"}
+
+// label values the analysis front end's addToQuery emits without quoting
+var c19UniVals = []string{"voilà", "Å", "全", "a\u00a0b", "a\u2003b", "x\u0085y", "à", "note:voilà", "déjà", "Ångström", "全部", "\u00a0"}
 
 var c19WordAlpha = []string{"a", "b", " ", "\t", "\"", "\\", "|", "v", "s", ":", "é", " ", "\"", "\\", "<", "k"}
 
@@ -156,6 +181,59 @@ func genC19Words(o *hx.Out, r *hx.Rng, tier string) {
 			q = strings.Join(parts, r.Pick([]string{" ", " ", "\t", "  "}))
 		}
 		c19Words(o, q, c19RandStr(r, c19WordAlpha, 7), c19RandStr(r, c19WordAlpha, 8))
+	}
+	genC19WordsUni(o, r.Split(), tier)
+}
+
+// genC19WordsUni: texts with non-ASCII symbols whose UTF-8 bytes include 0x85 /
+// 0xA0 and with the white-space runes U+00A0 / U+2003 / U+0085 inside words:
+// SplitWords separates words at the BYTES space and tab only.
+func genC19WordsUni(o *hx.Out, r *hx.Rng, tier string) {
+	// exhaustive over a small alphabet
+	exh := []string{"a", " ", "à", "Å", "\u00a0"}
+	var rec func(p string, d int)
+	rec = func(p string, d int) {
+		if p != "" {
+			c19Words(o, p, p, r.Pick([]string{"", "k:v", "a | b", "Å", "x à"}))
+		}
+		if d == 3 {
+			return
+		}
+		for _, s := range exh {
+			rec(p+s, d+1)
+		}
+	}
+	rec("", 0)
+	alpha := append(append([]string{}, c19WordAlpha...), c19UniSyms...)
+	alpha = append(alpha, c19UniSyms...)
+	n := 500
+	if tier == "thorough" {
+		n = 10000
+	}
+	for i := 0; i < n; i++ {
+		var q, add, qry string
+		switch x := r.Intn(100); {
+		case x < 40:
+			q, add, qry = c19RandStr(r, alpha, 12), c19RandStr(r, alpha, 6), c19RandStr(r, alpha, 8)
+		case x < 75:
+			// bare words joined by blanks (sometimes by a white-space rune, which must NOT separate)
+			var parts []string
+			for j := r.Range(1, 4); j > 0; j-- {
+				parts = append(parts, r.Pick(c19UniWords))
+			}
+			q = strings.Join(parts, r.Pick([]string{" ", "\t", "  ", " ", "\u00a0", "\u2003"}))
+			add = r.Pick(c19UniVals)
+			qry = r.Pick([]string{"", "k:v", "a | b", "note:voilà | Å", r.Pick(c19UniWords), "Å 全"})
+		default:
+			// a front-end round: key:value built from a label value, added to a query
+			add = r.Pick([]string{"note", "k", "pkg"}) + ":" + r.Pick(c19UniVals)
+			if r.Chance(0.3) {
+				add += r.Pick([]string{" x", "\"", "\\", "\tà"})
+			}
+			qry = c19RandStr(r, alpha, 8)
+			q = aapp.VerifAddToQuery(qry, add)
+		}
+		c19Words(o, q, add, qry)
 	}
 }
 
@@ -673,6 +751,52 @@ func c19GenQueries(r *hx.Rng, all []c19Res, ids []string, n int) []c19Query {
 }
 
 func c19History(o *hx.Out, r *hx.Rng, in c19HistIn, nq int, tags []string) error {
+	return c19HistoryX(o, r, in, nq, tags, nil)
+}
+
+// c19ServerKeys are the labels the server adds to every upload.
+var c19ServerKeys = map[string]bool{"upload": true, "upload-part": true, "upload-time": true, "upload-file": true, "by": true}
+
+// c19Transition classifies how the file-label KEY set changes from one record
+// of a response to the next (the server's Printer writes only the difference).
+func c19Transition(a, b sbf.Labels) string {
+	drop, gain, common := 0, 0, 0
+	for k := range a {
+		if c19ServerKeys[k] {
+			continue
+		}
+		if _, ok := b[k]; ok {
+			common++
+		} else {
+			drop++
+		}
+	}
+	for k := range b {
+		if c19ServerKeys[k] {
+			continue
+		}
+		if _, ok := a[k]; !ok {
+			gain++
+		}
+	}
+	switch {
+	case drop == 0 && gain == 0:
+		return "same-keys"
+	case drop == 0:
+		return "superset"
+	case gain == 0:
+		return "subset"
+	case common == 0:
+		return "disjoint"
+	case drop == gain:
+		return "swap-same-size"
+	}
+	return "swap"
+}
+
+// c19HistoryX: extra, if not nil, supplies queries in front of the generated ones
+// (it sees the stored results and the upload IDs).
+func c19HistoryX(o *hx.Out, r *hx.Rng, in c19HistIn, nq int, tags []string, extra func(all []c19Res, ids []string) []c19Query) error {
 	s, err := c19NewServer()
 	if err != nil {
 		return err
@@ -705,7 +829,12 @@ func c19History(o *hx.Out, r *hx.Rng, in c19HistIn, nq int, tags []string) error
 		return fmt.Errorf("query all: %v", err)
 	}
 	if in.Queries == nil {
-		in.Queries = c19GenQueries(r, all, ids, nq)
+		if extra != nil {
+			in.Queries = extra(all, ids)
+		}
+		if nq > 0 {
+			in.Queries = append(in.Queries, c19GenQueries(r, all, ids, nq)...)
+		}
 	}
 	var qsx []hx.Sx
 	for _, q := range in.Queries {
@@ -713,6 +842,31 @@ func c19History(o *hx.Out, r *hx.Rng, in c19HistIn, nq int, tags []string) error
 		hr, herr := s.httpQuery(q.Q)
 		dl, dlerr := s.dbList(q.Q, q.Limit)
 		hl, hlerr := s.httpList(q.Q, q.Limit)
+		if herr == nil {
+			// label-set transitions between consecutive records of this one response
+			for i := 1; i < len(hr); i++ {
+				o.Count("hist.http-transition=" + c19Transition(hr[i-1].Labels, hr[i].Labels))
+			}
+		}
+		if q.Limit > 0 && dlerr == nil && len(dl) == q.Limit && len(ids) >= 10 {
+			// a listing that the limit really cuts: how many uploads match without it
+			if full, ferr := s.dbList(q.Q, 0); ferr == nil && len(full) > q.Limit {
+				kind := "hist.list-cut"
+				if q.Q != "" {
+					kind = "hist.list-cut-query"
+				}
+				o.Count(kind)
+				if len(full) >= 10 {
+					o.Count(kind + "-10plus-matching")
+				}
+			}
+		}
+		if derr == nil && c19HasSpaceByte(q.Q) && !strings.ContainsAny(q.Q, "\\\"") {
+			o.Count("hist.query-bare-byte85a0")
+			if len(dr) > 0 {
+				o.Count("hist.query-bare-byte85a0-found")
+			}
+		}
 		qsx = append(qsx, hx.L(hx.S(q.Q), hx.I(q.Limit), c19ObsResults(dr, derr), c19ObsResults(hr, herr),
 			c19ObsList(dl, dlerr), c19ObsList(hl, hlerr)))
 		switch {
@@ -803,9 +957,252 @@ func genC19Fixed(o *hx.Out, r *hx.Rng) error {
 	return one("k: v\r\r\nBenchmarkX 1 ns/op\r\r\n", []string{"k>a", "name:X"}, "C19_trailing_cr")
 }
 
+// ---------- histories of many uploads on one day: listings with query and limit ----------
+
+// genC19Many: 11-14 tiny uploads (IDs .10, .11, ... sort below .9 as strings)
+// and listings with limits 1, 3, 5 with and without queries that most uploads
+// match: the listing is the limit NEWEST matching uploads, newest first.
+func genC19Many(o *hx.Out, r *hx.Rng, tier string) error {
+	n := 6
+	if tier == "thorough" {
+		n = 60
+	}
+	for i := 0; i < n; i++ {
+		in := c19HistIn{Kind: "history"}
+		for j := r.Range(11, 14); j > 0; j-- {
+			var sb strings.Builder
+			sb.WriteString("goos: " + r.Pick([]string{"linux", "linux", "linux", "linux", "darwin"}) + "\n")
+			if r.Chance(0.75) {
+				sb.WriteString("pkg: a\n")
+			}
+			switch {
+			case r.Chance(0.06):
+				// refused (no benchmark line): uses an ID up, leaves a gap
+			case r.Chance(0.3):
+				sb.WriteString("BenchmarkFoo 1 2 ns/op\nBenchmarkBar-8 1 3 ns/op\n")
+			default:
+				sb.WriteString("BenchmarkFoo 1 2 ns/op\n")
+			}
+			in.Uploads = append(in.Uploads, c19Upload{User: r.Pick([]string{"", "user"}), Files: []c19File{{"a.txt", sb.String()}}})
+		}
+		extra := func(all []c19Res, ids []string) []c19Query {
+			qs := []string{"", "goos:linux", "pkg:a", "name:Foo", "goos>a", "goos:linux pkg:a", "goos<m name:Foo"}
+			if len(ids) > 0 {
+				day := ids[0]
+				if k := strings.IndexByte(day, '.'); k >= 0 {
+					day = day[:k]
+				}
+				qs = append(qs, "upload>"+day, "upload<"+day+".5", "upload>"+day+".2 goos:linux", "upload>"+ids[r.Intn(len(ids))])
+			}
+			var out []c19Query
+			for _, q := range qs {
+				for _, l := range []int{1, 3, 5} {
+					out = append(out, c19Query{q, l})
+				}
+				out = append(out, c19Query{q, []int{0, 12, -1, 2, 9, 10, 11}[r.Intn(7)]})
+			}
+			return out
+		}
+		o.Count("hist.many")
+		if err := c19HistoryX(o, r, in, 6, nil, extra); err != nil {
+			return err
+		}
+	}
+	return nil
+}
+
+// ---------- label-set transitions between consecutive stored records ----------
+
+var c19TransKeys = []string{"goos", "goarch", "pkg", "k", "cl", "note"}
+
+// c19TransBody: a file made of blocks; each block moves the label set to a
+// new one (superset / subset / same size other keys / disjoint / other values
+// / unchanged) with deletion and assignment lines, then one benchmark line.
+func c19TransBody(r *hx.Rng) string {
+	vals := []string{"linux", "amd64", "a", "b", "1", "2", "x y"}
+	cur := map[string]string{}
+	present := func() (in, out []string) {
+		for _, k := range c19TransKeys {
+			if _, ok := cur[k]; ok {
+				in = append(in, k)
+			} else {
+				out = append(out, k)
+			}
+		}
+		return
+	}
+	take := func(l []string, n int) []string {
+		l = append([]string{}, l...)
+		var t []string
+		for ; n > 0 && len(l) > 0; n-- {
+			i := r.Intn(len(l))
+			t = append(t, l[i])
+			l = append(l[:i], l[i+1:]...)
+		}
+		return t
+	}
+	var sb strings.Builder
+	for b := r.Range(2, 5); b > 0; b-- {
+		in, out := present()
+		var del, add []string
+		switch kind := r.Intn(6); {
+		case kind == 1 && len(in) > 0: // subset
+			del = take(in, r.Range(1, 2))
+		case kind == 2 && len(in) > 0 && len(out) > 0: // same size, other keys
+			m := r.Range(1, min(2, min(len(in), len(out))))
+			del, add = take(in, m), take(out, m)
+		case kind == 3 && len(in) > 0 && len(out) > 0: // disjoint
+			del, add = in, take(out, r.Range(1, 2))
+		case kind == 4 && len(in) > 0: // same keys, another value
+			add = take(in, 1)
+		case kind == 5: // unchanged
+		default: // superset
+			add = take(out, r.Range(1, 2))
+		}
+		var lines []string
+		for _, k := range del {
+			delete(cur, k)
+			lines = append(lines, k+":")
+		}
+		for _, k := range add {
+			v := r.Pick(vals)
+			for v == cur[k] {
+				v = r.Pick(vals)
+			}
+			cur[k] = v
+			lines = append(lines, k+": "+v)
+		}
+		if r.Bool() {
+			for i, j := 0, len(lines)-1; i < j; i, j = i+1, j-1 {
+				lines[i], lines[j] = lines[j], lines[i]
+			}
+		}
+		for _, l := range lines {
+			sb.WriteString(l + "\n")
+		}
+		sb.WriteString("Benchmark" + r.Pick([]string{"Foo", "Bar-8", "Foo/q=v", "Baz"}) + " 1 2 ns/op\n")
+	}
+	return sb.String()
+}
+
+func c19TransQueries(r *hx.Rng) func(all []c19Res, ids []string) []c19Query {
+	return func(all []c19Res, ids []string) []c19Query {
+		var out []c19Query
+		for _, id := range ids {
+			// every record of one upload in one response
+			out = append(out, c19Query{"upload:" + id, []int{0, 1, -1}[r.Intn(3)]})
+		}
+		if len(ids) > 0 {
+			out = append(out, c19Query{"upload>" + ids[0][:strings.IndexByte(ids[0]+".", '.')], 0})
+		}
+		for _, q := range []string{"name:Foo", "name>A", "goos>", "gomaxprocs:8"} {
+			out = append(out, c19Query{q, []int{0, 2}[r.Intn(2)]})
+		}
+		return out
+	}
+}
+
+func genC19Trans(o *hx.Out, r *hx.Rng, tier string) error {
+	n := 24
+	if tier == "thorough" {
+		n = 300
+	}
+	for i := 0; i < n; i++ {
+		in := c19HistIn{Kind: "history"}
+		for j := r.Range(1, 3); j > 0; j-- {
+			u := c19Upload{User: r.Pick([]string{"", "user"})}
+			for k := r.Range(1, 3); k > 0; k-- {
+				u.Files = append(u.Files, c19File{r.Pick([]string{"", "a.txt", "b.txt"}), c19TransBody(r)})
+			}
+			in.Uploads = append(in.Uploads, u)
+		}
+		o.Count("hist.trans")
+		if err := c19HistoryX(o, r, in, 6, nil, c19TransQueries(r)); err != nil {
+			return err
+		}
+		// the same files through the Reader / Printer / Reader alone
+		for _, u := range in.Uploads {
+			for _, f := range u.Files {
+				if err := c19Fmt(o, nil, false, f.Body); err != nil {
+					return err
+				}
+			}
+		}
+	}
+	// fixed witnesses
+	for _, fs := range [][]c19File{
+		{{"a.txt", "goos: linux\nBenchmarkFoo 1 2 ns/op\n"}, {"b.txt", "goarch: amd64\nBenchmarkFoo 1 2 ns/op\n"}},
+		{{"a.txt", "a: 1\nb: 2\nBenchmarkX 1 ns/op\na:\nc: 3\nBenchmarkY 1 ns/op\n"}},
+		{{"a.txt", "a: 1\nb: 2\nBenchmarkX 1 ns/op\nb:\nBenchmarkY 1 ns/op\nb: 2\nBenchmarkZ 1 ns/op\n"}},
+		{{"a.txt", "goos: linux\nBenchmarkFoo 1 2 ns/op\n"}, {"b.txt", "BenchmarkFoo 1 2 ns/op\n"}, {"c.txt", "goos: linux\nBenchmarkFoo 1 2 ns/op\n"}},
+	} {
+		in := c19HistIn{Kind: "history", Uploads: []c19Upload{{User: "user", Files: fs}}}
+		if err := c19HistoryX(o, r, in, 0, nil, c19TransQueries(r)); err != nil {
+			return err
+		}
+	}
+	return nil
+}
+
+// ---------- non-ASCII label values found by bare query words ----------
+
+func genC19Uni(o *hx.Out, r *hx.Rng, tier string) error {
+	n := 12
+	if tier == "thorough" {
+		n = 150
+	}
+	keys := []string{"note", "k", "goos"}
+	vals := append([]string{"linux", "voil", "a"}, c19UniVals...)
+	extra := func(all []c19Res, ids []string) []c19Query {
+		// every stored file label as a bare equality word, as the front end writes it
+		seen := map[string]bool{}
+		var out []c19Query
+		for _, x := range all {
+			for _, k := range keys {
+				v, ok := x.Labels[k]
+				if !ok || seen[k+":"+v] {
+					continue
+				}
+				seen[k+":"+v] = true
+				w := aapp.VerifAddToQuery("", k+":"+v)
+				w = strings.TrimSuffix(w, " | ")
+				out = append(out, c19Query{w, []int{0, 1}[r.Intn(2)]})
+			}
+		}
+		return out
+	}
+	for i := 0; i < n; i++ {
+		in := c19HistIn{Kind: "history"}
+		for j := r.Range(1, 3); j > 0; j-- {
+			u := c19Upload{User: r.Pick([]string{"", "user"})}
+			for k := r.Range(1, 2); k > 0; k-- {
+				var sb strings.Builder
+				for l := r.Range(1, 4); l > 0; l-- {
+					if r.Chance(0.85) {
+						sb.WriteString(r.Pick(keys) + ": " + r.Pick(vals) + "\n")
+					}
+					sb.WriteString("Benchmark" + r.Pick([]string{"Foo", "Bar-8", "Baz"}) + " 1 2 ns/op\n")
+				}
+				u.Files = append(u.Files, c19File{"a.txt", sb.String()})
+			}
+			in.Uploads = append(in.Uploads, u)
+		}
+		o.Count("hist.uni")
+		if err := c19HistoryX(o, r, in, 15, nil, extra); err != nil {
+			return err
+		}
+	}
+	in := c19HistIn{Kind: "history", Uploads: []c19Upload{{User: "user", Files: []c19File{
+		{"a.txt", "note: voilà\nBenchmarkX 1 ns/op\nnote: Å\nBenchmarkY 1 ns/op\nnote: 全\nBenchmarkZ 1 ns/op\nnote: a\u00a0b\nBenchmarkW 1 ns/op\n"}}}}}
+	for _, q := range []string{"note:voilà", "note:Å", "note:全", "note:a\u00a0b", "note:voil", "note>voil note<voilb", "note:voilà name:X", "name:X note:voilà"} {
+		in.Queries = append(in.Queries, c19Query{q, 0})
+	}
+	return c19HistoryX(o, r, in, 0, nil, nil)
+}
+
 func genC19(o *hx.Out, r *hx.Rng, tier string, replay string) error {
 	log.SetOutput(io.Discard)
-	o.Rule = "three streams: (words) texts over {a b space tab quote backslash | v s : é < k}, exhaustive up to a length bound over 5 symbols, through SplitWords / addToQuery / parseQueryString; (fmt) generated benchmark files (label set/delete, blank, hostile lines, CRLF) through the legacy Reader (with and without AddLabels), the Printer and the Reader again; (history) 1-6 uploads of 1-3 files through storage.Client into an in-process storage/app server on in-memory sqlite, then 20-60 generated queries (equality/range, present/absent keys, several terms per key, contradictory, redundant, quoted values, malformed words, key upload) each through db.DB.Query, storage.Client.Query, db.DB.ListUploads and storage.Client.ListUploads with a limit. non-trivial = at least one word / result / stored result"
+	o.Rule = "three streams: (words) texts over {a b space tab quote backslash | v s : é < k}, exhaustive up to a length bound over 5 symbols, through SplitWords / addToQuery / parseQueryString; (fmt) generated benchmark files (label set/delete, blank, hostile lines, CRLF) through the legacy Reader (with and without AddLabels), the Printer and the Reader again; (history) 1-6 uploads of 1-3 files through storage.Client into an in-process storage/app server on in-memory sqlite, then 20-60 generated queries (equality/range, present/absent keys, several terms per key, contradictory, redundant, quoted values, malformed words, key upload) each through db.DB.Query, storage.Client.Query, db.DB.ListUploads and storage.Client.ListUploads with a limit; (words, non-ASCII) texts and front-end values with à Å 全 U+00A0 U+2003 U+0085 (UTF-8 bytes 0x85 / 0xA0), exhaustive to length 3 over {a space à Å U+00A0}; (many) 11-14 tiny uploads on one day, listings with limits 1/3/5 and others, with and without queries most uploads match; (transitions) files built from label-set transitions (superset, subset, same size other keys, disjoint, value change) read back per upload in one HTTP response, and through Reader/Printer/Reader; (non-ASCII values) stored label values with those symbols searched by the bare word the front end builds. non-trivial = at least one word / result / stored result"
 	genC19Words(o, r.Split(), tier)
 	if err := genC19Fmt(o, r.Split(), tier); err != nil {
 		return err
@@ -813,5 +1210,14 @@ func genC19(o *hx.Out, r *hx.Rng, tier string, replay string) error {
 	if err := genC19Hist(o, r.Split(), tier); err != nil {
 		return err
 	}
-	return genC19Fixed(o, r.Split())
+	if err := genC19Fixed(o, r.Split()); err != nil {
+		return err
+	}
+	if err := genC19Many(o, r.Split(), tier); err != nil {
+		return err
+	}
+	if err := genC19Trans(o, r.Split(), tier); err != nil {
+		return err
+	}
+	return genC19Uni(o, r.Split(), tier)
 }
